@@ -207,7 +207,7 @@ def execute(m: Model, start_state) -> Run:
             loc = frozenset({(a, b) for a, b in loc if a != nm} | {(nm, nd.ast.value.value)})
         if nd.kind == "stmt" and isinstance(nd.ast, ast.Return):
             facts = {}
-            v = nd.ast.value
+            v = fa.ret_ast(n)[0]
             if isinstance(v, ast.Call):
                 for kw in v.keywords:
                     if isinstance(kw.value, ast.Constant):
